@@ -96,6 +96,45 @@ def make_client_class(env, addr2id):
     return ScriptedClient
 
 
+def make_real_client_class(env, addr2id):
+    """the REAL Client on the fake network, observed at the same seam as the scripted one: every invocation of a per-server
+    client is a contact; whether the server was reachable is what the ENVIRONMENT says (its health at that moment), not what
+    kind of exception the client chose to raise"""
+    from pymemcache.client.base import Client
+
+    class TracedClient(Client):
+        def __init__(self, server, **kw):
+            super().__init__(server, **kw)
+            self.sid = addr2id[server]
+
+    def traced(name):
+        orig = getattr(Client, name)
+
+        def method(self, first, *a, **kw):
+            h = env.health[self.sid]
+            key = first[0] if isinstance(first, (list, tuple)) else next(iter(first)) if isinstance(first, dict) else first
+            kid = env.key_of(key)
+            try:
+                r = orig(self, first, *a, **kw)
+            except Exception as e:   # noqa
+                env.xid += 1
+                env.raised[id(e)] = env.xid
+                env.keep.append(e)
+                env.events.append({"e": "contact", "s": self.sid, "k": kid, "ok": False, "os": h == "os", "x": env.xid})
+                raise
+            if h == "up":
+                env.events.append({"e": "contact", "s": self.sid, "k": kid, "ok": True, "os": False, "x": 0})
+            else:
+                env.xid += 1        # the failure was swallowed inside the per-server client
+                env.events.append({"e": "contact", "s": self.sid, "k": kid, "ok": False, "os": h == "os", "x": env.xid})
+            return r
+        method.__name__ = name
+        return method
+    for nm in ("get", "set", "delete", "incr", "get_many", "gets_many", "set_many"):
+        setattr(TracedClient, nm, traced(nm))
+    return TracedClient
+
+
 def make_hasher(env, n, names):
     class PrefHasher:
         """key k<i> prefers server i, i+1, ... cyclically; lives on the first one in rotation"""
@@ -124,24 +163,48 @@ def make_hasher(env, n, names):
     return PrefHasher
 
 
-def replay(hist, n, ra, rt, dt, ignore_exc, variant):
+def replay(hist, n, ra, rt, dt, ignore_exc, variant, unix=False, real=False, fixed_op=None):
+    """unix: the servers are UNIX-socket paths (plain strings) instead of (host, port) pairs.  real: the per-server clients are
+    the real Client on the fake network (a server that is "os" refuses connections or hangs, one that is "mc" answers every
+    command with SERVER_ERROR); otherwise scripted clients"""
     from pymemcache.client.hash import HashClient
     from pymemcache.exceptions import MemcacheError
     env = Env(n)
     env.keep = []
     env.key_of = lambda key: int((key.decode() if isinstance(key, bytes) else key).split("-")[0][1:])
-    servers = [("10.0.0.%d" % i, 11211) for i in range(1, n + 1)]
-    names = ["%s:%s" % s for s in servers]
+    if unix:
+        servers = ["/var/run/memcached/mc%d.sock" % i for i in range(1, n + 1)]
+        names = list(servers)
+    else:
+        servers = [("10.0.0.%d" % i, 11211) for i in range(1, n + 1)]
+        names = ["%s:%s" % s for s in servers]
     addr2id = {s: i + 1 for i, s in enumerate(servers)}
     vclock.set_now(5_000_000)
-    HashClient.client_class = make_client_class(env, addr2id)
+    extra = {}
+    net = None
+    if real:
+        from lib import fakesock, refserver
+        net = fakesock.FakeNet()
+        net.begin_call(1, None, "all")
+        for s_ in servers:
+            srv = net.add_server(s_)
+            srv.mode = "up"
+            for k in range(1, n + 1):
+                for suffix in ("x", "y", "z", "m0", "m1", "m2"):
+                    srv.store[("k%d-%s" % (k, suffix)).encode()] = refserver.Item(b"1", 0, 0, srv._next_cas())
+        # (every operation waits for its reply: a fire-and-forget write to a server that hangs cannot fail)
+        extra = dict(socket_module=net, timeout=1, connect_timeout=1, default_noreply=False)
+        cls = make_real_client_class(env, addr2id)
+    else:
+        cls = make_client_class(env, addr2id)
+    HashClient.client_class = cls
     try:
         hc = HashClient(servers, hasher=make_hasher(env, n, names), retry_attempts=ra, retry_timeout=rt, dead_timeout=dt,
-                        ignore_exc=ignore_exc)
+                        ignore_exc=ignore_exc, **extra)
     finally:
         from pymemcache.client.base import Client
         HashClient.client_class = Client
-    hc.client_class = make_client_class(env, addr2id)     # for clients re-created on revival
+    hc.client_class = cls     # for clients re-created on revival
     env.events.clear()           # construction adds the nodes: the monitor starts with all servers in rotation
     out = []
     ncall = 0
@@ -151,6 +214,9 @@ def replay(hist, n, ra, rt, dt, ignore_exc, variant):
             out.append({"e": "tick", "d": 1})
         elif step[0] == "health":
             env.health[step[1]] = step[2]
+            if real:
+                # unreachable = refuses connections (and resets the open one), or takes requests and never answers
+                net.servers[servers[step[1] - 1]].mode = {"up": "up", "mc": "mcerr"}.get(step[2]) or ["refuse", "hang"][(variant + len(out)) % 2]
         elif step[0] == "remove_server":
             # the caller uses the public remove_server() on a server that has not failed: whether the library accepts that or
             # raises, a call that fails must not have changed the rotation (the hasher seam reports an `rm` if it did)
@@ -187,12 +253,12 @@ def replay(hist, n, ra, rt, dt, ignore_exc, variant):
                 out.append(raise_event(x, e))
             else:
                 out += env.events
-                out.append(ret_event(env, res))
+                out.append(ret_event(env, None if real else res))
         else:
             k = step[1]
             ncall += 1
             key = "k%d-x" % k
-            op = ["get", "set", "get_many", "set_many", "delete", "incr"][(variant + ncall) % 6]
+            op = fixed_op or ["get", "set", "get_many", "set_many", "delete", "incr", "get_many1", "gets_many1"][(variant + ncall) % 8]
             out.append({"e": "call", "keys": [k], "op": op})
             del env.events[:]
             res1 = None
@@ -203,6 +269,10 @@ def replay(hist, n, ra, rt, dt, ignore_exc, variant):
                     hc.set(key, b"v")
                 elif op == "get_many":
                     res1 = hc.get_many([key, "k%d-y" % k])
+                elif op == "get_many1":
+                    hc.get_many([key])                 # a batch of one
+                elif op == "gets_many1":
+                    hc.gets_many([key])
                 elif op == "set_many":
                     hc.set_many({key: b"v", "k%d-z" % k: b"w"})
                 elif op == "delete":
@@ -219,9 +289,9 @@ def replay(hist, n, ra, rt, dt, ignore_exc, variant):
                 out.append(raise_event(x, e, allow_all=False))
             else:
                 out += env.events
-                out.append(ret_event(env, res1 if op == "get_many" else None))
+                out.append(ret_event(env, res1 if op == "get_many" and not real else None))
     return {"h": {"n": n, "ra": ra, "rt": rt, "dt": dt, "ignore_exc": ignore_exc, "maxrej": 4}, "ev": out,
-            "hist": hist, "variant": variant}
+            "hist": hist, "variant": variant, "unix": unix, "real": real}
 
 
 def raise_event(x, e, allow_all=True):
@@ -357,11 +427,16 @@ CHECK_DEADLOCK FALSE
         n = rnd.choice([2, 3])
         ra = rnd.choice([0, 1, 2])
         rt, dt = rnd.choice([(1, 2), (2, 4), (1, 3), (1, 6), (1, 9), (2, 9)])
-        traces.append(replay(random_hist(rnd, n, rnd.randrange(60, 121)), n, ra, rt, dt, rnd.random() < 0.5, i))
+        traces.append(replay(random_hist(rnd, n, rnd.randrange(60, 121)), n, ra, rt, dt, rnd.random() < 0.5, i,
+                             unix=(i % 5 == 1), real=(i % 5 == 2)))
     tg = targeted_hists()
     for i, (n, ra, rt, dt, h) in enumerate(tg):
-        traces.append(replay(h, n, ra, rt, dt, i % 2 == 1, i))
+        # a quarter with UNIX-socket servers, a quarter on the real Client + fake network, a quarter with one and the same
+        # operation throughout (a workload of nothing but set_many, or get_many, ... must revive a server just the same)
+        fixed = [None, "set_many", "get_many", "get", "gets_many1", "delete", "set", "incr"][(i // 4) % 8] if i % 4 == 1 else None
+        traces.append(replay(h, n, ra, rt, dt, (i // 2) % 2 == 1, i, unix=(i % 4 == 2), real=(i % 4 == 3), fixed_op=fixed))
     rep.set("targeted_eviction_revival_histories", len(tg))
+    rep.set("executions_on_the_real_client_and_fake_network", sum(1 for t in traces if t.get("real")))
     acc, rej, st, _ = tlc.validate_traces("FailoverTrace", [{"h": t["h"], "ev": t["ev"]} for t in traces], chunk=2500)
     rep.set("traces_validated_against_impl", len(traces))
     rep.set("trace_states", st)
